@@ -37,12 +37,12 @@ theorem C10_render_valid (A : Arith) (fmt : Fmt) (x : Rat) (text : Str)
   | d fl width prec => exact (render_d_text h).1
 
 /-- (b) sexagesimal: the text denotes the value to within the format's resolution (one unit of the last
-place), the sign applying to the whole magnitude -/
-theorem C10_sexa_denotes (A : Arith) (hA : A.Accurate) (frac base : Nat) (hb : sexaBase frac = some base)
-    (x : Rat) (hx : absR x ≤ 10 ^ 9) (text : Str) (h : render A (.sexa frac) x = .ok text) :
-    ∃ v, denote text = some v ∧ absR (v - x) * base ≤ 1 := by
+place; in fact half of it, for EVERY value: the fields are computed exactly), the sign applying to the whole magnitude -/
+theorem C10_sexa_denotes (A : Arith) (frac base : Nat) (hb : sexaBase frac = some base)
+    (x : Rat) (text : Str) (h : render A (.sexa frac) x = .ok text) :
+    ∃ v, denote text = some v ∧ absR (v - x) * (2 * base) ≤ 1 := by
   obtain ⟨_, h2, _⟩ := render_sexa_text hb h
-  exact ⟨_, h2, (sexa_numeric hA hb hx _ rfl).1⟩
+  exact ⟨_, h2, sexa_exact hb x _ rfl⟩
 
 /-- (b) `%[flags][width][.prec]f`: within half a unit of the last decimal -/
 theorem C10_f_denotes (A : Arith) (fl : Flags) (width prec : Nat) (x : Rat) (text : Str)
@@ -82,6 +82,6 @@ theorem C10_sexa_roundtrip (A : Arith) (hA : A.Accurate) (frac base : Nat) (hb :
     (x : Rat) (hx : absR x ≤ 10 ^ 9) (text : Str) (h : render A (.sexa frac) x = .ok text) :
     ∃ v, strToNum A text = .ok (.float v) ∧ absR (v - x) * base ≤ 1 := by
   obtain ⟨_, _, h3⟩ := render_sexa_text hb h
-  exact ⟨_, h3, (sexa_numeric hA hb hx _ rfl).2⟩
+  exact ⟨_, h3, sexa_numeric hA hb hx _ rfl⟩
 
 end Indi.Num
